@@ -94,14 +94,59 @@ where
             }
         }
     }
+    // particular VALUES of the randomness: 0, 1 and r-1 in every tape position (the model says what
+    // must happen; for r1, r2 != 0 the proof must verify)
+    {
+        let msgs = rand_msgs(h, 3);
+        let hdr = rand_header(h);
+        if let Some(s) = sign::<CS>(h, &sk, &pk, hdr.as_deref(), Some(&msgs)).ok() {
+            let sb = s.to_bytes();
+            let d = vec![1usize];
+            let dm = pick_msgs(&msgs, &d);
+            let rm1 = hex::decode("73eda753299d7d483339d80809a1d80553bda402fffe5bfeffffffff00000000").unwrap();
+            let mut one = vec![0u8; 32];
+            one[31] = 1;
+            for pos in 0..7 {
+                for (vn, val) in [("zero", vec![0u8; 32]), ("one", one.clone()), ("r_minus_1", rm1.clone())] {
+                    let mut tape = rand_tape(h, 7);
+                    tape[pos] = val.clone();
+                    h.stat(&format!("C03.special_tape.{}", vn));
+                    let (p, _) = proofgen::<CS>(h, &pk, &sb, hdr.as_deref(), None, Some(&msgs), Some(&d), tape);
+                    let gid = h.last();
+                    let degenerate = vn == "zero" && pos < 2;
+                    if !degenerate {
+                        h.expect(p.is_ok(), "C03.special_tape_gen", "proof_gen failed for a particular value of the randomness", &[gid]);
+                    }
+                    if let Some(p) = p.ok() {
+                        let v = proofverify::<CS>(h, &pk, &p, hdr.as_deref(), None, Some(&dm), Some(&d));
+                        if !degenerate {
+                            h.expect(v.is_ok(), "C03.special_tape_verify", "proof made with a particular value of the randomness does not verify", &[gid, h.last()]);
+                        }
+                    }
+                }
+            }
+            // equal blindings in two roles, supplied by the tape (legal, must still verify)
+            let t = rand_tape(h, 7);
+            let tape = vec![t[0].clone(), t[1].clone(), t[2].clone(), t[2].clone(), t[2].clone(), t[5].clone(), t[5].clone()];
+            let (p, _) = proofgen::<CS>(h, &pk, &sb, hdr.as_deref(), None, Some(&msgs), Some(&d), tape);
+            if let Some(p) = p.ok() {
+                let v = proofverify::<CS>(h, &pk, &p, hdr.as_deref(), None, Some(&dm), Some(&d));
+                h.expect(v.is_ok(), "C03.equal_draws", "proof does not verify when the tape repeats a value", &[h.last()]);
+            }
+        }
+    }
     // sampled larger L, unsorted / duplicated index lists, None arguments
-    let big: &[usize] = if thorough { &[11, 32, 255, 256, 300] } else { &[11, 40] };
+    let big: &[usize] = if thorough { &[11, 32, 64, 170, 255, 256, 300, 1400] } else { &[11, 17, 40, 200] };
     for &l in big {
         let (sk, pk) = rand_keypair::<CS>(h);
         let msgs = rand_msgs(h, l);
         let hdr = rand_header(h);
         if let Some(s) = sign::<CS>(h, &sk, &pk, hdr.as_deref(), Some(&msgs)).ok() {
             let sb = s.to_bytes();
+            // nothing disclosed (U = L) and one disclosed, with the production randomness path
+            h.stat(&format!("C03.large_U={}", l));
+            honest_proof::<CS>(h, &pk, &sb, hdr.as_deref(), None, &msgs, &[], false);
+            honest_proof::<CS>(h, &pk, &sb, hdr.as_deref(), None, &msgs, &[l - 1], true);
             let reps = if thorough { 4 } else { 2 };
             for r in 0..reps {
                 let mut d = rand_subset(h, l);
@@ -373,6 +418,41 @@ where
         if !d.is_empty() {
             // drop one disclosed message (changes R, hence L = U + R)
             expect_reject::<CS>(h, "drop_disclosed", &pk, &pb, hdr.as_deref(), ph.as_deref(), &dm[1..].to_vec(), &d[1..].to_vec());
+        }
+        // repeated / unsorted indexes carrying an extra, unsigned message
+        if !d.is_empty() {
+            let forged = b"never signed".to_vec();
+            for pos in 0..d.len() {
+                // duplicate index d[pos] with a forged message placed after, before, and at the end
+                for place in 0..3 {
+                    let mut i2 = d.clone();
+                    let mut m2 = dm.clone();
+                    match place {
+                        0 => { i2.insert(pos + 1, d[pos]); m2.insert(pos + 1, forged.clone()); }
+                        1 => { i2.insert(pos, d[pos]); m2.insert(pos, forged.clone()); }
+                        _ => { i2.push(d[pos]); m2.push(forged.clone()); }
+                    }
+                    expect_reject::<CS>(h, "dup_index_forged_msg", &pk, &pb, hdr.as_deref(), ph.as_deref(), &m2, &i2);
+                    let mut i3 = i2.clone();
+                    let mut m3 = m2.clone();
+                    i3.reverse();
+                    m3.reverse();
+                    expect_reject::<CS>(h, "dup_index_forged_msg_rev", &pk, &pb, hdr.as_deref(), ph.as_deref(), &m3, &i3);
+                }
+            }
+            // the same index twice with the SAME (genuine) message: whatever the code decides, the model must agree
+            let mut i2 = d.clone();
+            let mut m2 = dm.clone();
+            i2.push(d[0]);
+            m2.push(dm[0].clone());
+            if let Ok(pp) = Pok::<CS>::from_bytes(&pb) {
+                proofverify::<CS>(h, &pk, &pp, hdr.as_deref(), ph.as_deref(), Some(&m2), Some(&i2));
+                // more messages than indexes / fewer
+                let v = proofverify::<CS>(h, &pk, &pp, hdr.as_deref(), ph.as_deref(), Some(&m2), Some(&d));
+                h.expect(!v.is_ok(), "C04.extra_message", "proof_verify accepted more disclosed messages than indexes", &[h.last()]);
+                let v = proofverify::<CS>(h, &pk, &pp, hdr.as_deref(), ph.as_deref(), Some(&dm[..dm.len() - 1].to_vec()), Some(&d));
+                h.expect(!v.is_ok(), "C04.missing_message", "proof_verify accepted fewer disclosed messages than indexes", &[h.last()]);
+            }
         }
         let mut h1 = hdr.clone().unwrap_or_default();
         h1.push(7);
